@@ -46,7 +46,8 @@ func doReplay(path string) int {
 		return 2
 	}
 	bin := filepath.Join(work, "harness.test")
-	if err := buildHarness(prep, spec.Race, bin); err != nil {
+	race := raceBatch(spec, rf.Batch)
+	if err := buildHarness(prep, race, bin); err != nil {
 		fmt.Fprintln(os.Stderr, err)
 		return 2
 	}
@@ -55,7 +56,7 @@ func doReplay(path string) int {
 	out := filepath.Join(work, "replay.jsonl")
 	if rf.Fatal {
 		j := Job{Property: rf.Property, Batch: rf.Batch, Mode: "explore", Seed: rf.Seed, From: rf.RunIndex, To: rf.RunIndex + 1, Out: out, Extra: rf.Extra, NoMinimise: true}
-		res := runWorker(bin, j, 10*time.Minute, spec.Race)
+		res := runWorker(bin, j, 10*time.Minute, race)
 		if res.err != nil && res.crashRun == int64(rf.RunIndex) {
 			fmt.Printf("VIOLATION property=%s replay=%s\n  fatal: %s\n", rf.Property, abs, fatalLine(res.stderr))
 			return 1
@@ -64,9 +65,9 @@ func doReplay(path string) int {
 		return 0
 	}
 	trace := os.Getenv("VERIF_TRACE")
-	res := runWorker(bin, Job{Property: rf.Property, Mode: "replay", Replay: abs, Out: out, Trace: trace}, 10*time.Minute, spec.Race)
+	res := runWorker(bin, Job{Property: rf.Property, Mode: "replay", Replay: abs, Out: out, Trace: trace}, 10*time.Minute, race)
 	recs, _ := readRecords(out)
-	if res.err != nil || len(recs) != 1 {
+	if (res.err != nil && !race) || len(recs) != 1 {
 		fmt.Fprintf(os.Stderr, "replay worker failed: %v\n%s\n", res.err, trunc(res.stderr, 3000))
 		return 2
 	}
